@@ -100,9 +100,17 @@ impl Number {
     pub fn parse_rational(text: &str, radix: u32) -> Option<Number> {
         // Ratio::<i32>::new negates both parts of a ratio whose denominator is negative, which
         // overflows for i32::MIN; such spellings take the BigRational route below.
-        let has_i32_min = text
-            .splitn(2, '/')
-            .any(|part| i32::from_str_radix(part, radix) == Ok(i32::MIN));
+        let has_i32_min = match text.split_once('/') {
+            Some((numer, denom)) => {
+                match (i32::from_str_radix(numer, radix), i32::from_str_radix(denom, radix)) {
+                    (Ok(numer), Ok(denom)) => {
+                        denom < 0 && (numer == i32::MIN || denom == i32::MIN)
+                    }
+                    _ => false,
+                }
+            }
+            None => false,
+        };
         let small = if has_i32_min {
             Err(())
         } else {
